@@ -24,7 +24,7 @@ ID = "C16"
 LEVEL = "fault_enumeration"
 RULE = ("systematic product {child behaviour} x {exit path} x {moment} x {entry point} with fixed parameters, plus seeded scenarios with "
         "random latencies/instants/second cancellation; non-trivial = the child misbehaved or the exit was not the plain normal path")
-PROBES = ["exit_under_cancel_scope", "exit_under_task_cancel", "exit_under_fail_after", "exit_by_exception", "sigterm_ignored_then_killed",
+PROBES = ["client_object_reused", "exit_under_cancel_scope", "exit_under_task_cancel", "exit_under_fail_after", "exit_by_exception", "sigterm_ignored_then_killed",
           "child_already_dead_at_exit", "cancel_landed_inside_aexit", "request_pending_when_child_died", "spawn_failed", "writer_blocked_at_exit",
           "flood_at_exit"]
 TIERS = {"quick": {"runs": 20000, "wall": 45.0}, "thorough": {"runs": 2000000, "wall": 560.0}}
@@ -122,11 +122,16 @@ def generate(rng: random.Random, tier: str) -> dict:
     sc = None
     if path == "task_cancel" and rng.random() < 0.25:
         sc = {"dt": rng.choice([0, 1, 100, 1023, 1024, 1500])}
-    return {"v": 1, "entry": rng.choice(ENTRIES), "child": _child_cfg(kind, rng), "body": body, "exit": _exit_for(path, moment, rng),
-            "second_cancel": sc, "moment": moment}
+    entry = rng.choice(ENTRIES)
+    return {"v": 1, "entry": entry, "child": _child_cfg(kind, rng), "body": body, "exit": _exit_for(path, moment, rng),
+            "second_cancel": sc, "moment": moment,
+            # StdioClient objects may be entered again: an earlier (plain) conversation over the same object
+            "earlier_conversations": (rng.choice([1, 2]) if entry == "StdioClient" and rng.random() < 0.4 else 0)}
 
 
 def simplify(scn):
+    if scn.get("earlier_conversations"):
+        c = copy.deepcopy(scn); c["earlier_conversations"] = 0; yield c
     if scn["second_cancel"]:
         c = copy.deepcopy(scn); c["second_cancel"] = None; yield c
     if scn["entry"] != "stdio_client":
@@ -287,7 +292,19 @@ def execute(scn: dict) -> dict:
                 async with stdio.stdio_client_with_initialize(params, timeout=1.0) as (r, w, _init):
                     await inside(r, w)
             elif scn["entry"] == "StdioClient":
-                async with stdio.StdioClient(params) as client:
+                client = stdio.StdioClient(params)
+                for _n in range(scn.get("earlier_conversations", 0)):
+                    # a plain, well-behaved earlier conversation over the same object (own child, normal exit)
+                    st["earlier_phase"] = True
+                    async with client:
+                        r0, w0 = client.get_streams()
+                        try:
+                            await sm.send_message(r0, w0, "ping", None, timeout=0.5)
+                        except Exception:
+                            pass
+                    st["earlier_phase"] = False
+                    sim.probe("client_object_reused")
+                async with client:
                     r, w = client.get_streams()
                     await inside(r, w)
             else:
@@ -351,6 +368,9 @@ def execute(scn: dict) -> dict:
         out["history"] = {"child": ch, "exit": ex, "deadlock": True}
         return out
     child = st.get("child")
+    for ci, ch_ in enumerate(st["factory"].children[:-1] if st.get("child") is not None else st["factory"].children):
+        if ch_.alive:
+            V("child-left-running", "earlier-conversation:" + kind, f"the child of earlier conversation #{ci + 1} over the same client object is still running at the end")
     out["faults"]["child:" + kind] = 1
     out["faults"]["exit:" + path] = 1
     probe({"cancel_scope": "exit_under_cancel_scope", "task_cancel": "exit_under_task_cancel", "fail_after": "exit_under_fail_after",
